@@ -69,6 +69,34 @@ def run(ctx: Any, prog: Program) -> None:
             p0_ = hfl_[0].args.args[0].arg
             if any(isinstance(c, ast.Call) and dotted(c.func) in removing_helpers and c.args and dotted(c.args[0]) == p0_ for c in ast.walk(hfl_[0])):
                 removing_helpers.add(hq_)
+    # one folding for all: `str.lower()` and `str.casefold()` agree on ASCII only (ß, final sigma, ligatures differ), so an index maintained
+    # partly with one and partly with the other files an entity under two keys.  Every key expression of by_class / by_target - subscripts and
+    # helper arguments - uses the same method.
+    fold_sites: List[Tuple[str, ast.AST, str]] = []
+    for q_, fl_ in vm.all_funcs().items():
+        for f_ in fl_:
+            for n_ in walk_no_nested(f_):
+                key_e = None
+                if isinstance(n_, ast.Subscript) and index_of(n_.value):
+                    key_e = n_.slice
+                elif isinstance(n_, ast.Call) and isinstance(n_.func, ast.Name) and (n_.func.id in removing_helpers or n_.func.id in add_helpers) and len(n_.args) >= 2 and index_of(n_.args[0]):
+                    key_e = n_.args[1]
+                if key_e is None:
+                    continue
+                # follow a local key once
+                exprs = [key_e]
+                if isinstance(key_e, ast.Name):
+                    exprs += [a.value for a in walk_no_nested(f_) if isinstance(a, ast.Assign) and any(isinstance(t, ast.Name) and t.id == key_e.id for t in a.targets)]
+                for e_ in exprs:
+                    for c_ in ast.walk(e_):
+                        if isinstance(c_, ast.Call) and isinstance(c_.func, ast.Attribute) and c_.func.attr in ('casefold', 'lower', 'upper') and not c_.args:
+                            fold_sites.append((q_, n_, c_.func.attr))
+    used = {m for _, _, m in fold_sites}
+    majority = max(used, key=lambda m: sum(1 for _, _, mm in fold_sites if mm == m)) if used else None
+    for q_, n_, m_ in fold_sites:
+        ctx.check('C07.I1', m_ == majority, vm, n_, f'{q_} computes an index key with .{m_}() where the other {sum(1 for _, _, mm in fold_sites if mm == majority)} key expressions use .{majority}(): the two differ outside ASCII '
+                  '("Straße".lower() != "Straße".casefold()), so the entity is filed under one key and looked for / removed under another', func=q_, text=f'{q_}: index key folded with {majority}')
+    ctx.shape('C07.I1', len(fold_sites) >= 4, vm, vm.tree, f'{len(fold_sites)} folded index key expressions found', text='folded key expressions')
     ctx.rule('C07.I2', 'Entity._keys is mutated only by __init__/__setitem__/__delitem__', floor=4)
     ctx.rule('C07.I3', 'index maintenance: remove-old-first, guarded add, list and indexes updated together', floor=10)
     ctx.rule('C07.I4', 'worldspawn is registered, cannot be re-classed and its classname cannot be deleted', floor=4)
@@ -105,12 +133,45 @@ def run(ctx: Any, prog: Program) -> None:
         for qual, fns in mod.all_funcs().items():
             for fn in fns:
                 env = FormEnv(fn)
+                # keys that come out of a tuple: `cls_key, name_key = _lookup_keys(item)` with a module-level helper returning a tuple stands for
+                # the helper's expressions on that argument; a tuple taken from an attribute of the entity (`item._lookup or ...`) is a
+                # REMEMBERED key - right only as long as everything that re-files the entity refreshes it
+                import copy as _copy7
+                key_subst: Dict[str, ast.AST] = {}
+                for a_ in walk_no_nested(fn):
+                    if not isinstance(a_, ast.Assign):
+                        continue
+                    tup = next((t for t in a_.targets if isinstance(t, ast.Tuple) and all(isinstance(e, ast.Name) for e in t.elts)), None)
+                    if tup is None:
+                        continue
+                    alts = a_.value.values if isinstance(a_.value, ast.BoolOp) else [a_.value]
+                    for alt in alts:
+                        if isinstance(alt, ast.Attribute) and isinstance(alt.value, ast.Name) and not alt.attr.startswith('__'):
+                            ent_methods_ = vm.methods('Entity') if modname == 'vmf' else {}
+                            refiling = [mn for mn, mf in ent_methods_.items() if any(isinstance(c, ast.Call) and ((isinstance(c.func, ast.Name) and c.func.id in removing_helpers and c.args and index_of(c.args[0]))
+                                                                                   or (isinstance(c.func, ast.Attribute) and c.func.attr in SET_MUT and isinstance(c.func.value, ast.Subscript) and index_of(c.func.value.value))) for c in walk_no_nested(mf))]
+                            stale = [mn for mn in refiling if not any(isinstance(x, ast.Attribute) and isinstance(x.ctx, ast.Store) and x.attr == alt.attr for x in ast.walk(ent_methods_[mn]))]
+                            ctx.check('C07.I1', not stale, mod, a_, f'{qual} takes the index keys from `{U(alt)}`, a value remembered on the entity, but Entity.{", Entity.".join(stale)} re-file the entity without refreshing '
+                                      f'`{alt.attr}`: after a `del ent[...]` / pop / clear the remembered key is the old one, and the entity is looked for (removed) under it', func=qual, text=f'{qual}: remembered keys {alt.attr} refreshed by every re-filing method')
+                        if isinstance(alt, ast.Call) and isinstance(alt.func, ast.Name) and mod.has_func(alt.func.id) and len(alt.args) == 1:
+                            hf_ = mod.func(alt.func.id)
+                            hrets_ = [r.value for r in walk_no_nested(hf_) if isinstance(r, ast.Return)]
+                            if len(hrets_) == 1 and isinstance(hrets_[0], ast.Tuple) and len(hrets_[0].elts) == len(tup.elts) and len(hf_.args.args) == 1:
+                                prm_ = hf_.args.args[0].arg
+
+                                class _S7(ast.NodeTransformer):
+                                    def visit_Name(self, nn: ast.Name) -> ast.AST:      # noqa: N802
+                                        return ast.copy_location(_copy7.deepcopy(alt.args[0]), nn) if nn.id == prm_ else nn
+                                for tn, el in zip(tup.elts, hrets_[0].elts):
+                                    key_subst[tn.id] = ast.fix_missing_locations(_S7().visit(_copy7.deepcopy(el)))
                 for n in walk_no_nested(fn):
                     # X.by_*[K].add(e) etc.
                     if isinstance(n, ast.Call) and isinstance(n.func, ast.Attribute) and n.func.attr in SET_MUT \
                             and isinstance(n.func.value, ast.Subscript) and index_of(n.func.value.value):
                         idx = index_of(n.func.value.value)
                         k = n.func.value.slice
+                        if isinstance(k, ast.Name) and k.id in key_subst:
+                            k = key_subst[k.id]
                         ctx.check('C07.I1', key_ok(idx, env.form(k)), mod, n,
                                   f'{idx}[...] is mutated with key `{U(k)}` which is not in the index normal form '
                                   f'({"casefolded" if idx == "by_class" else "casefolded, empty -> None"}); the entry goes stale / is filed under a key lookups never use',
@@ -130,6 +191,8 @@ def run(ctx: Any, prog: Program) -> None:
                     elif isinstance(n, ast.Call) and dotted(n.func) == '_remove_copyset' and len(n.args) == 3 and index_of(n.args[0]):
                         idx = index_of(n.args[0])
                         k = n.args[1]
+                        if isinstance(k, ast.Name) and k.id in key_subst:
+                            k = key_subst[k.id]
                         ctx.check('C07.I1', key_ok(idx, env.form(k)), mod, n,
                                   f'_remove_copyset({idx}, `{U(k)}`, ...) uses a key that is not in the index normal form; the old entry is not found and stays',
                                   func=qual, text=f'_remove_copyset({idx}, {U(k)})')
@@ -548,6 +611,7 @@ def run(ctx: Any, prog: Program) -> None:
 
 
 MUTANTS = [
+    {'id': 'add_ent_folds_with_lower', 'file': 'vmf.py', 'find': "        self.by_class[item['classname', ''].casefold()].add(item)\n        self.by_target[item['targetname', ''].casefold() or None].add(item)", 'replace': "        self.by_class[item['classname', ''].lower()].add(item)\n        self.by_target[item['targetname', ''].lower() or None].add(item)", 'expect': 'C07.I1'},
     {'id': 'search_wildcard_walks_live_index', 'file': 'vmf.py', 'find': "            for ent_name, ents in list(self.by_target.items()):\n                if ent_name is not None and ent_name.casefold().startswith(name):", 'replace': "            for ent_name, ents in self.by_target.items():\n                if ent_name is not None and ent_name.casefold().startswith(name):", 'expect': 'C07.I5'},
     {'id': 'move_helper_adds_to_stale_set', 'file': 'vmf.py', 'find': "class StrataInstanceVisibility(Enum):", 'replace': "def _move_copyset(mapping, old_key, new_key, ent):\n    old_set = mapping.get(old_key, None)\n    new_set = mapping[new_key]\n    if old_set is not None:\n        old_set.discard(ent)\n        if not old_set:\n            del mapping[old_key]\n    new_set.add(ent)\n\n\nclass StrataInstanceVisibility(Enum):", 'extra': [{'file': 'vmf.py', 'find': "            _remove_copyset(self.map.by_target, (orig_val or '').casefold() or None, self)\n            if self in self.map.entities or self is self.map.spawn:\n                self.map.by_target[str_val.casefold() or None].add(self)\n", 'replace': "            old_name = (orig_val or '').casefold() or None\n            if self in self.map.entities or self is self.map.spawn:\n                _move_copyset(self.map.by_target, old_name, str_val.casefold() or None, self)\n            else:\n                _remove_copyset(self.map.by_target, old_name, self)\n"}], 'expect': 'C07.I3'},
     {'id': 'ok_move_helper_removes_then_fetches', 'file': 'vmf.py', 'find': "class StrataInstanceVisibility(Enum):", 'replace': "def _move_copyset(mapping, old_key, new_key, ent):\n    _remove_copyset(mapping, old_key, ent)\n    mapping[new_key].add(ent)\n\n\nclass StrataInstanceVisibility(Enum):", 'extra': [{'file': 'vmf.py', 'find': "            _remove_copyset(self.map.by_target, (orig_val or '').casefold() or None, self)\n            if self in self.map.entities or self is self.map.spawn:\n                self.map.by_target[str_val.casefold() or None].add(self)\n", 'replace': "            old_name = (orig_val or '').casefold() or None\n            if self in self.map.entities or self is self.map.spawn:\n                _move_copyset(self.map.by_target, old_name, str_val.casefold() or None, self)\n            else:\n                _remove_copyset(self.map.by_target, old_name, self)\n"}], 'expect': None, 'refuse_ok': True, 'note': 'negative control: move helper that removes first and then looks the new set up'},
